@@ -58,6 +58,15 @@ def run(ctx):
         s1_held_comb(ctx, "S1", fx, cls)
         prio(ctx, "PRIO", fx, cls)
 
+    # ---- S1 (selectors): source data assembled combinationally from registers (a word mux, an unpack index, a shift position): the
+    # registers hold while the token waits.  Gearbox is not in this list: its shift register is written at one position while another
+    # is read (decided separately by S11/S12 on the level arithmetic).
+    from ..rules_stream import s1_held_selectors
+    for cls in ("_DownConverter", "Unpack", "Shifter", "PipelinedActor"):
+        fx = fx_of(ctx, STREAM, cls)
+        n = s1_held_selectors(ctx, "S1", fx, cls)
+        ctx.need(n > 0, f"S1: {cls} has no register behind its source data any more (instance table stale)")
+
     # ---- S9 empty accepts
     for cls in ("PipeValid", "_UpConverter", "Pack", "PipelinedActor", "PipeReady"):
         fx = fx_of(ctx, STREAM, cls)
@@ -162,6 +171,12 @@ def run(ctx):
         fsm_sanity(ctx, "S7", fx, cls)
         prio(ctx, "PRIO", fx, cls)
         s1_stability(ctx, "S1", fx, cls)   # no registered source field today; armed if one appears
+        # the beat on the source is assembled from registers (sr, sink_d, fsm_from_idle): they hold while it waits.  Depacketizer: a
+        # packet that ends inside its own header (sink_d.last while the header leftover is still being fetched) is outside the domain
+        from ..rules_stream import s1_held_selectors
+        n_sel = s1_held_selectors(ctx, "S1", fx, cls, assume=None if cls == "Packetizer" else B.Not(B.from_expr("fsm_from_idle & sink_d.last")))
+        ctx.ob("S1", PACKET, cls, "held token: registers behind the offered beat:present", n_sel >= (5 if cls == "Packetizer" else 1),
+               f"only {n_sel} register updates found behind source data", 0)
 
 
 def _lower_bounds(e):
